@@ -62,7 +62,13 @@ func runKs(op string) (out string) {
 	env.Cluster.Handler = func(rq *fakecass.Request) fakecass.Response {
 		mu.Lock()
 		defer mu.Unlock()
-		seen[tokenOf(rq)] = fmt.Sprintf("at:%s/%d/%s", hexs(rq.Keyspace), rq.Header.Version, rq.Compression)
+		// the version is the one the backend connection did STARTUP with (a frame of another version on it is a
+		// protocol violation a real node answers with an error)
+		v := fmt.Sprint(int(rq.Conn.Version))
+		if rq.Conn.Version != rq.Header.Version {
+			v = fmt.Sprintf("%d!frame-v%d", rq.Conn.Version, rq.Header.Version)
+		}
+		seen[tokenOf(rq)] = fmt.Sprintf("at:%s/%s/%s", hexs(rq.Keyspace), v, rq.Compression)
 		return fakecass.Response{Kind: fakecass.RespMsg, Msg: &message.VoidResult{}}
 	}
 	clients := make([]*e2e.Client, len(defs))
